@@ -5,6 +5,7 @@ import (
 	"context"
 	"errors"
 	"fmt"
+	"io"
 	"log/slog"
 	"regexp"
 	"strconv"
@@ -37,10 +38,12 @@ type dop struct {
 	group  bool
 	id     int   // = node created
 	pads   []int // value padding per attribute / name padding of the group
+	shapes []int // per attribute: 0 string, 1 inside a keyed group, 2 behind a LogValuer, 3 keyed group without members, 4 LogValuer -> empty group, 5 inside an inline group
 	gor    int   // goroutine
 }
 type lop struct {
 	node, id, ownpad, gor int
+	noOwn                 bool // the record carries no attributes of its own
 }
 type op struct {
 	d *dop
@@ -54,19 +57,36 @@ type plan struct {
 	kids  []int
 	ngor  int
 	what  string
+	r     *hk.Rng
+	// how the tree is built and used: through Handler.WithAttrs/WithGroup/Handle with hand-built records (fixed time),
+	// or through logger.New(h).With/WithGroup and the Logger's methods, one *Logger per node (time blanked)
+	api       bool
+	colorful  bool
+	addSource bool
 }
 
-func newPlan(k lg.Kind, what string) *plan {
-	return &plan{kind: k, par: []int{-1}, depth: []int{0}, kids: []int{0}, ngor: 1, what: what}
+func newPlan(k lg.Kind, what string, r *hk.Rng) *plan {
+	return &plan{kind: k, par: []int{-1}, depth: []int{0}, kids: []int{0}, ngor: 1, what: what, r: r,
+		api: r.Chance(45), colorful: r.Chance(25), addSource: r.Chance(40)}
 }
 
 func (p *plan) derive(parent int, group bool, pads []int, gor int) int {
+	shapes := make([]int, len(pads))
+	for i := range shapes {
+		if !group && p.r.Chance(45) {
+			shapes[i] = 1 + p.r.Intn(5)
+		}
+	}
+	return p.deriveShaped(parent, group, pads, shapes, gor)
+}
+
+func (p *plan) deriveShaped(parent int, group bool, pads, shapes []int, gor int) int {
 	id := len(p.par)
 	p.par = append(p.par, parent)
 	p.depth = append(p.depth, p.depth[parent]+1)
 	p.kids = append(p.kids, 0)
 	p.kids[parent]++
-	p.ops = append(p.ops, op{d: &dop{parent, group, id, pads, gor}})
+	p.ops = append(p.ops, op{d: &dop{parent, group, id, pads, shapes, gor}})
 	return id
 }
 
@@ -77,7 +97,7 @@ func (p *plan) log(node, ownpad, gor int) {
 			n++
 		}
 	}
-	p.ops = append(p.ops, op{l: &lop{node, 1000 + n, ownpad, gor}})
+	p.ops = append(p.ops, op{l: &lop{node: node, id: 1000 + n, ownpad: ownpad, gor: gor, noOwn: p.r.Chance(20)}})
 }
 
 func attrVal(id, pad int) string { return "M" + strconv.Itoa(id) + strings.Repeat("x", pad) + "Z" }
@@ -85,33 +105,114 @@ func groupName(id, pad int) string {
 	return "G" + strconv.Itoa(id) + strings.Repeat("g", pad)
 }
 
-func (d *dop) step() lg.Step {
-	if d.group {
-		return lg.Step{Group: groupName(d.id, d.pads[0])}
-	}
-	id, pads := d.id, d.pads
-	return lg.Step{Attrs: func() []slog.Attr {
-		as := make([]slog.Attr, len(pads))
-		for i, pd := range pads {
-			as[i] = slog.String("k", attrVal(id, pd))
+func marked(shape int) bool { return shape != 3 && shape != 4 }
+
+func (d *dop) attrList() []slog.Attr {
+	as := make([]slog.Attr, len(d.pads))
+	for i, pd := range d.pads {
+		v := attrVal(d.id, pd)
+		switch d.shapes[i] {
+		case 1:
+			as[i] = slog.Attr{Key: "grp", Value: slog.GroupValue(slog.String("k", v))}
+		case 2:
+			as[i] = slog.Any("k", lv{slog.StringValue(v)})
+		case 3:
+			as[i] = slog.Attr{Key: "eg", Value: slog.GroupValue()}
+		case 4:
+			as[i] = slog.Any("el", lv{slog.GroupValue()})
+		case 5:
+			as[i] = slog.Attr{Key: "", Value: slog.GroupValue(slog.String("k", v))}
+		default:
+			as[i] = slog.String("k", v)
 		}
-		return as
-	}}
+	}
+	return as
 }
 
-func (p *plan) chain(node int, steps map[int]lg.Step) []lg.Step {
-	var rev []lg.Step
-	for n := node; n > 0; n = p.par[n] {
-		rev = append(rev, steps[n])
-	}
-	for i, j := 0, len(rev)-1; i < j; i, j = i+1, j-1 {
-		rev[i], rev[j] = rev[j], rev[i]
-	}
-	return rev
+type node struct {
+	h logger.Handler
+	l *logger.Logger
 }
 
-func (l *lop) record() slog.Record {
-	return lg.NewRecord(logger.LevelInfo, lg.Msg(l.id), slog.String("r", attrVal(l.id, l.ownpad)))
+func (p *plan) root(w io.Writer) node {
+	h := lg.NewHandlerOpts(p.kind, w, logger.LevelInfo, p.colorful, p.addSource)
+	if p.api {
+		return node{l: logger.New(h)}
+	}
+	return node{h: h}
+}
+
+func (p *plan) deriveNode(n node, d *dop) node {
+	switch {
+	case p.api && d.group:
+		return node{l: n.l.WithGroup(groupName(d.id, d.pads[0]))}
+	case p.api:
+		return node{l: n.l.With(toAny(d.attrList())...)}
+	case d.group:
+		return node{h: n.h.WithGroup(groupName(d.id, d.pads[0]))}
+	default:
+		return node{h: n.h.WithAttrs(d.attrList())}
+	}
+}
+
+func (l *lop) own() []slog.Attr {
+	if l.noOwn {
+		return nil
+	}
+	return []slog.Attr{slog.String("r", attrVal(l.id, l.ownpad))}
+}
+
+// logNode: the one place a tree node logs from (so that with addSource the isolated replay reports the same source line)
+func (p *plan) logNode(n node, l *lop) (err error) {
+	defer func() {
+		if r := recover(); r != nil {
+			err = fmt.Errorf("panic: %v", r)
+		}
+	}()
+	if !p.api {
+		var pc uintptr
+		if p.addSource {
+			pc = lg.PCs[l.id%len(lg.PCs)]
+		}
+		return n.h.Handle(context.Background(), lg.NewRecordPC(logger.LevelInfo, lg.Msg(l.id), pc, l.own()...))
+	}
+	switch {
+	case l.noOwn && l.id%2 == 0:
+		n.l.Infof("%s", lg.Msg(l.id))
+	case l.id%2 == 0:
+		n.l.Info(lg.Msg(l.id), toAny(l.own())...)
+	default:
+		n.l.LogAttrs(context.Background(), logger.LevelInfo, lg.Msg(l.id), l.own()...)
+	}
+	return nil
+}
+
+// solo: the isolated replay - a fresh root, just this node's chain, the same record
+func (p *plan) solo(nodeID int, dops map[int]*dop, l *lop) []byte {
+	var c lg.Capture
+	var chain []*dop
+	for n := nodeID; n > 0; n = p.par[n] {
+		chain = append(chain, dops[n])
+	}
+	n := p.root(&c)
+	func() {
+		defer func() { recover() }()
+		for i := len(chain) - 1; i >= 0; i-- {
+			n = p.deriveNode(n, chain[i])
+		}
+		p.logNode(n, l)
+	}()
+	if len(c.Chunks) != 1 {
+		return nil
+	}
+	return p.norm(c.Chunks[0])
+}
+
+func (p *plan) norm(line []byte) []byte {
+	if p.api {
+		return lg.NormTime(p.kind, line)
+	}
+	return line
 }
 
 var (
@@ -168,17 +269,17 @@ type result struct{ logs, bad int }
 func execute(e *hk.Env, p *plan) result {
 	var cap lg.Capture
 	nn := len(p.par)
-	handlers := make([]logger.Handler, nn)
+	nodes := make([]node, nn)
 	ready := make([]chan struct{}, nn)
 	for i := range ready {
 		ready[i] = make(chan struct{})
 	}
-	handlers[0] = lg.NewHandler(p.kind, &cap, logger.LevelInfo)
+	nodes[0] = p.root(&cap)
 	close(ready[0])
-	steps := map[int]lg.Step{}
+	dops := map[int]*dop{}
 	for _, o := range p.ops {
 		if o.d != nil {
-			steps[o.d.id] = o.d.step()
+			dops[o.d.id] = o.d
 		}
 	}
 	var wg sync.WaitGroup
@@ -200,15 +301,15 @@ func execute(e *hk.Env, p *plan) result {
 								errMu.Lock()
 								errs = append(errs, fmt.Sprint("panic in derive: ", r))
 								errMu.Unlock()
-								handlers[o.d.id] = handlers[o.d.parent]
+								nodes[o.d.id] = nodes[o.d.parent]
 							}
 							close(ready[o.d.id])
 						}()
-						handlers[o.d.id] = lg.ApplyStep(handlers[o.d.parent], steps[o.d.id])
+						nodes[o.d.id] = p.deriveNode(nodes[o.d.parent], o.d)
 					}()
 				case o.l != nil && o.l.gor == g:
 					<-ready[o.l.node]
-					if err := lg.Handle(handlers[o.l.node], o.l.record()); err != nil {
+					if err := p.logNode(nodes[o.l.node], o.l); err != nil {
 						errMu.Lock()
 						errs = append(errs, err.Error())
 						errMu.Unlock()
@@ -232,34 +333,75 @@ func execute(e *hk.Env, p *plan) result {
 			if d.group {
 				fields = append(fields, fmt.Sprintf("G:%d:%d:%d", d.parent, d.id, apprSize(p.kind, true, len(groupName(d.id, d.pads[0])))))
 			} else {
-				ss := make([]string, len(d.pads))
+				var ss []string
 				for i, pd := range d.pads {
-					ss[i] = strconv.Itoa(apprSize(p.kind, false, len(attrVal(d.id, pd))))
+					if marked(d.shapes[i]) { // attributes that render nothing append nothing
+						ss = append(ss, strconv.Itoa(apprSize(p.kind, false, len(attrVal(d.id, pd)))))
+					}
 				}
-				fields = append(fields, fmt.Sprintf("A:%d:%d:%s", d.parent, d.id, strings.Join(ss, ",")))
+				sz := "-"
+				if len(ss) > 0 {
+					sz = strings.Join(ss, ",")
+				}
+				fields = append(fields, fmt.Sprintf("A:%d:%d:%s", d.parent, d.id, sz))
 			}
 			continue
 		}
 		l := o.l
 		res.logs++
-		want, okSolo := lg.Solo(p.kind, logger.LevelInfo, p.chain(l.node, steps), l.record())
+		want := p.solo(l.node, dops, l)
 		lines := got[l.id]
-		eq := okSolo && len(lines) == 1 && bytes.Equal(lines[0], want)
 		var line []byte
 		if len(lines) > 0 {
 			line = lines[0]
 		}
+		eq := want != nil && len(lines) == 1 && bytes.Equal(p.norm(line), want)
 		as, gs := observe(p.kind, line)
+		// the attribute markers the line must carry: those of the node's own chain, in order, then the record's own
+		var wantIDs []string
+		{
+			var chain []*dop
+			for n := l.node; n > 0; n = p.par[n] {
+				chain = append(chain, dops[n])
+			}
+			for i := len(chain) - 1; i >= 0; i-- {
+				if !chain[i].group {
+					for _, sh := range chain[i].shapes {
+						if marked(sh) {
+							wantIDs = append(wantIDs, strconv.Itoa(chain[i].id))
+						}
+					}
+				}
+			}
+			if !l.noOwn {
+				wantIDs = append(wantIDs, strconv.Itoa(l.id))
+			}
+		}
+		wantAs := "-"
+		if len(wantIDs) > 0 {
+			wantAs = strings.Join(wantIDs, ",")
+		}
+		if eq && as != wantAs {
+			res.bad++
+			if res.bad <= 2 {
+				e.Case("VIOL", "tree", "kind="+p.kind.String(), "what="+p.what, fmt.Sprintf("node=%d", l.node), "attributes-of-the-chain-missing-or-foreign",
+					"seen="+as, "want="+wantAs, "line="+hk.Hx(clipb(line)), "plan="+p.describe())
+			}
+		}
 		b := 0
 		if eq {
 			b = 1
 		}
-		fields = append(fields, fmt.Sprintf("L:%d:%d:%d:%d:%s:%s", l.node, b, l.id, apprSize(p.kind, false, len(attrVal(l.id, l.ownpad))), as, gs))
+		ownsz := apprSize(p.kind, false, len(attrVal(l.id, l.ownpad)))
+		if l.noOwn {
+			ownsz = 0
+		}
+		fields = append(fields, fmt.Sprintf("L:%d:%d:%d:%d:%s:%s", l.node, b, l.id, ownsz, as, gs))
 		if !eq {
 			res.bad++
 			if res.bad <= 2 {
 				e.Case("VIOL", "tree", "kind="+p.kind.String(), "what="+p.what, fmt.Sprintf("node=%d", l.node), fmt.Sprintf("writes=%d", len(lines)),
-					"got="+hk.Hx(clipb(line)), "want="+hk.Hx(clipb(want)), "plan="+p.describe())
+					"got="+hk.Hx(clipb(p.norm(line))), "want="+hk.Hx(clipb(want)), "plan="+p.describe())
 			}
 		}
 	}
@@ -283,6 +425,7 @@ func clipb(b []byte) []byte {
 
 func (p *plan) describe() string {
 	var sb strings.Builder
+	fmt.Fprintf(&sb, "[api=%v,colour=%v,source=%v]", p.api, p.colorful, p.addSource)
 	for i, o := range p.ops {
 		if i > 0 {
 			sb.WriteByte(';')
@@ -295,10 +438,10 @@ func (p *plan) describe() string {
 				for _, pd := range o.d.pads {
 					ls = append(ls, strconv.Itoa(len(attrVal(o.d.id, pd))))
 				}
-				fmt.Fprintf(&sb, "n%d=n%d.With(k=%sB)@g%d", o.d.id, o.d.parent, strings.Join(ls, "+"), o.d.gor)
+				fmt.Fprintf(&sb, "n%d=n%d.With(k=%sB,shapes=%v)@g%d", o.d.id, o.d.parent, strings.Join(ls, "+"), strings.ReplaceAll(fmt.Sprint(o.d.shapes), " ", ""), o.d.gor)
 			}
 		} else {
-			fmt.Fprintf(&sb, "n%d.Log(#%d)@g%d", o.l.node, o.l.id, o.l.gor)
+			fmt.Fprintf(&sb, "n%d.Log(#%d,own=%v)@g%d", o.l.node, o.l.id, !o.l.noOwn, o.l.gor)
 		}
 	}
 	return sb.String()
@@ -342,15 +485,18 @@ func run(e *hk.Env) error {
 	pads := sweepPads(e.Thorough())
 	for _, k := range lg.Kinds {
 		for _, pd := range pads {
-			for shape := 0; shape < 3; shape++ {
+			for shape := 0; shape < 4; shape++ {
 				for pair := 0; pair < 4; pair++ {
-					p := newPlan(k, fmt.Sprintf("siblings shape=%d pair=%d pad=%d", shape, pair, pd))
+					p := newPlan(k, fmt.Sprintf("siblings shape=%d pair=%d pad=%d", shape, pair, pd), r)
 					base := 0
 					switch shape {
 					case 1:
 						base = p.derive(0, false, []int{3}, 0)
 					case 2:
 						base = p.derive(0, true, []int{1}, 0)
+					case 3:
+						base = p.derive(0, false, []int{3}, 0)
+						base = p.deriveShaped(base, false, []int{0}, []int{3 + pd%2}, 0)
 					}
 					parent := p.derive(base, false, []int{pd}, 0)
 					c1 := p.derive(parent, pair&1 == 1, []int{0}, 0)
@@ -383,7 +529,7 @@ func run(e *hk.Env) error {
 	}
 	for _, k := range lg.Kinds {
 		for i := 0; i < nburst; i++ {
-			p := newPlan(k, "burst")
+			p := newPlan(k, "burst", r)
 			q := p.derive(0, r.Chance(30), []int{r.Intn(8)}, 0)
 			parent := p.derive(q, false, []int{randPad(r), r.Intn(6)}, 0)
 			n := 2 + r.Intn(7)
@@ -415,7 +561,7 @@ func run(e *hk.Env) error {
 	fanHist := map[int]int{}
 	for _, k := range lg.Kinds {
 		for i := 0; i < ntrees; i++ {
-			p := newPlan(k, "random")
+			p := newPlan(k, "random", r)
 			p.ngor = []int{1, 2, 4, 8}[r.Intn(4)]
 			nops := 6 + r.Intn(34)
 			for j := 0; j < nops; j++ {
